@@ -643,3 +643,16 @@ func lemmaOriginRoundTrip(p []byte) ([]byte, int) {
 //@   requires !is(seq, GenBank) && !is(seq, *GenBank) ==> len(bytesOf(seq)) < 999999940
 //@   callpre detectWriter(s0, w0): s0 == seq && w0 == w.w
 //@   callpre WriteSeq(s0): s0 == seq
+
+// The remaining field callbacks of the GenBank reader (C07: no panic whatever the tokens hold).
+// The ACCESSION callback also splits the REGION suffix off (C01): the two slice expressions stay
+// inside the token because strings.Index returns -1 or a position at which " REGION: " fits.
+//@ func genbankAccessionParser$1(result *pars.Result) (err error)
+//@   prop C07 C01
+//@   requires !isnil(result) && !isnil(gb)
+//@ func genbankVersionParser$1(result *pars.Result) (err error)
+//@   prop C07
+//@   requires !isnil(result) && !isnil(gb)
+//@ func genbankCommentParser$1(result *pars.Result) (err error)
+//@   prop C07
+//@   requires !isnil(result) && !isnil(gb)
